@@ -29,6 +29,7 @@ package types
 //@   requires !isnil(deposit.Amount) && 0 <= Amt(deposit) && Amt(deposit) < P255
 //@   requires validDenom(deposit.Denom)
 //@   requires UnixNs(lastOutflowTime) <= UnixNs(nowTime)
+//@   requires validTime(nowTime) && validTime(depositZeroTime) && validTime(lastOutflowTime)
 //@   nopanic
 //@   let secs := (UnixNs(nowTime) - UnixNs(lastOutflowTime)) / 1000000000
 //@   ensures @all_after_zero UnixNs(nowTime) >= UnixNs(depositZeroTime) ==> Amt(claim) == Amt(deposit) && Amt(rem) == 0
